@@ -141,4 +141,12 @@ TEXT = {
                 "proved; field names are pinned from the current code. Malformed documents make decoders raise (KeyError, TypeError, ...): nothing is claimed about which.",
         "technique": "contract-based deductive verification: own VC generator over the real source + z3/cvc5",
     },
+    "C04": {
+        "level": "FunctionReferenceWithArguments._compute_effective_kwargs (the real source, two loops and a filter, loop invariants) is proved equal to the binding specification for every parameter list of distinct "
+                 "names, every partial application (positional and keyword) and every call (positional and keyword): a name is bound iff it is a call keyword, a partial keyword, one of the leading partially "
+                 "bound parameters, or the r-th parameter left free by the partial application for r < number of positional arguments; its value is the call keyword's, else the positional argument's, else "
+                 "the partial positional's, else the partial keyword's -- so the result is a function of the bound values as a MAP, not of how they were passed.",
+        "note": "work in progress: further functions of C04 are added below as they come under contract",
+        "technique": "contract-based deductive verification: own VC generator over the real source + z3/cvc5",
+    },
 }
